@@ -187,6 +187,13 @@ def hostPath (u : Bytes) : Bytes × Bytes :=
   | some i => (rest.take i, rest.drop i)
   | none => (rest, [47])
 
+/-- fasthttp `normalizePath`, the part that concerns a path without dot segments: runs of '/' collapse
+    (client side, before the request line is written) -/
+def collapseSlashes : Bytes → Bytes
+  | 47 :: 47 :: rest => collapseSlashes (47 :: rest)
+  | c :: rest => c :: collapseSlashes rest
+  | [] => []
+
 /-- cookies: jar, then client map, then request map (`SetCookie` overwrites by name) -/
 def mergeCookies (jar clientC reqC : List KV) : List KV :=
   (jar ++ clientC ++ reqC).foldl (fun m kv => storeSet m kv.1 kv.2) []
